@@ -611,6 +611,34 @@ def skeleton(m: P1Model):
                     continue
             if e[0] == "write" and not (e[1] == SELF and e[2] == m.hunt):
                 res.append(Result("bad", "skeleton", "state-change", "read() changes reader state outside the per-line step / guard", e[-1], witness=f"{show_sv(e[1])}.{e[2]}"))
+        # while hunting, the noise in front of the next start character is cut off before the buffered input is split into lines
+        # (otherwise "<noise>/ident" is one line that does not begin with '/', and the hunt rows ignore it: the readout is lost)
+        if seen_loop and Hm is not False and not unknown:
+            pre, ok_tags = [], True
+            for e in p.effects:
+                if e[0] == "loop":
+                    break
+                if e[0] == "callm" and e[1] == m.f0(m.buffer):
+                    t_ = m.btag(e[2])
+                    pre.append(t_)
+                    ok_tags = ok_tags and not t_.startswith("other:")
+            if ok_tags and "extend" in pre and "trim-flag" not in pre:
+                res.append(Result("bad", "hunt-trim", "no-trim-before-lines", "in hunt mode read() splits the buffered input into lines without first skipping to the next start character: "
+                                  "noise glued to the front of an identification line makes the whole readout invisible to the hunt rows", fn.node.lineno,
+                                  witness="; ".join(f"{'' if pol else 'not '}{show_sv(g)}" for g, pol, _ in p.guards) + f" => buffer: {pre}"))
+        # an empty chunk adds nothing to the stream: a call with it must leave a readout in progress alone
+        if p.status == "return" and not seen_loop and Hm is not True and (not cconds or (taken and b"" in taken)) and not unknown:
+            drops = []
+            for e in p.effects:
+                if e[0] == "write" and e[1] == SELF and e[2] == m.hunt and e[3] == ("c", True):
+                    drops.append("goes back to hunt mode")
+                elif e[0] in ("mutate", "callm") and e[1] == m.f0(m.raw) and str(e[2]).endswith("clear"):
+                    drops.append("discards the lines collected so far")
+                elif e[0] == "callm" and e[1] == m.f0(m.buffer) and m.btag(e[2]) in ("clear",):
+                    drops.append("empties the input buffer")
+            if drops and (cconds or True):
+                res.append(Result("bad", "skeleton", "empty-chunk-state", "a read() call with an empty chunk changes the reader's state (" + ", ".join(dict.fromkeys(drops)) + "): the readouts returned depend "
+                                  "on whether the splitting of the stream contains empty pieces", fn.node.lineno, witness="; ".join(f"{'' if pol else 'not '}{show_sv(g)}" for g, pol, _ in p.guards)))
         cw = "; ".join(f"{'' if pol else 'not '}{show_sv(g)}" for g, pol in cconds)
         if cconds and taken is None:
             res.append(Result("und", "skeleton", "chunk-condition", f"read() branches on a condition on the chunk that cannot be evaluated on representative chunks ({cw})", fn.node.lineno))
